@@ -1,10 +1,10 @@
-import N0Verif.Proofs.FilesCodec
+import N0Verif.Proofs.Files2
 /-!
 # C15 — text and bytes saved to a file load back unchanged under every EOL/mode
 
 Only property statements live here; helper lemmas are in `Proofs/Files.lean`, `Proofs/FilesCodec.lean`
-(codecs) and `Py/Lemmas.lean` (`replace_roundtrip`).  The model (`Model/Files.lean`) follows the code
-with the fixes `C15-close` and `C15-a` applied.
+(codecs), `Proofs/Files2.lean` (binary `load_lines`, non-ASCII EOLs) and `Py/Lemmas.lean` (`replace_roundtrip`).
+The model (`Model/Files.lean`) follows the code with the fixes `C15-close`, `C15-a`, `C15-c` and `C15-d` applied.
 
 Vocabulary (defined in `Proofs/Files.lean`):
 * `SaveMode m` — `m` is one of `t`, `b`, `wt`, `wb`, `at`; `TextMode m` — `t`, `wt`, `at`;
@@ -15,7 +15,11 @@ Vocabulary (defined in `Proofs/Files.lean`):
 * `c.enc s = some y` — the text `s` is encodable (no `UnicodeEncodeError`) and `y` are its bytes;
 * `Fresh fs p m` — the previous content of the file plays no role: a truncating mode, or `at` on a missing file;
 * `EolDisjoint eol text` — the EOL is not empty and its characters other than `'\n'` do not occur in the text;
-* `unlines ls` — every line followed by `'\n'`.
+* `unlines ls` — every line followed by `'\n'`; `unlinesB e ls` — every byte line followed by the EOL bytes `e`;
+* `lineOk e l` — `(l + e).find(e) == len(l)`: the first occurrence of the EOL in line + EOL is the one at the end;
+* `markFirst bom ls` — the lines with the codec's signature in front of the first one;
+* `Codec.Sync c lead` — the codec is self-synchronising (a character = a lead byte + non-lead bytes, no code is a
+  prefix of another one); a theorem for the four codec models (`C15_codecs_sync`).
 
 The model writes through: "after `save_file` returns the data is completely on disk" is **not**
 a theorem here (see the notes; the harness observes it on the real code).
@@ -356,6 +360,364 @@ theorem C15_utf8sig_bom (s : Str) :
   ⟨rfl, utf8sig_decode_bom s, utf8sig_decode_bom_twice s, utf8sig_decodeStream_prefix.1, utf8sig_decodeStream_prefix.2.1,
    utf8sig_decodeStream_prefix.2.2.1, utf8sig_decodeStream_prefix.2.2.2⟩
 
+/-! ## `load_lines` in binary mode
+
+`load_lines(p, read_mode, encoding, EOL)` with `'b' in read_mode` — or with a non-standard EOL — returns
+`data.split(EOL.encode(encoding)[len(signature):])` without the empty piece that follows the last EOL
+(fixes `C15-c`, `C15-d`). -/
+
+/-- **C15 (lines, binary round trip), any kind of line.**  A list of lines (`bytes`, `str` or other
+objects; `ys` their byte forms) saved on the manual path — `b`/`wb`, or any mode with a non-standard
+EOL — is stored one line per EOL (signature once, in front), and `load_lines` in binary mode (or
+with the same non-standard EOL) returns exactly the byte lines — the first one behind the
+signature of a BOM codec — provided every stored line satisfies `lineOk`: the first occurrence of
+the EOL bytes in line + EOL is the one at the end. -/
+theorem C15_lines_roundtrip_binary_gen (c : Codec) (fs : FS) (p : Str) (xs : List Line) (ys : List Bytes)
+    (m eol tag rm : Str) (e : Bytes) (hm : SaveMode m) (hpath : textLayer m eol = false) (hf : Fresh fs p m)
+    (hc : LinesConv c xs ys) (heol : c.enc eol = some e) (hne : e ≠ [])
+    (hok : ∀ l ∈ markFirst c.bom ys, lineOk e l = true)
+    (hrm : (rm.contains 'b' || !isStdEol eol) = true) :
+    (saveFile c fs p (.lines xs) m eol tag).2 = .ok ()
+    ∧ (saveFile c fs p (.lines xs) m eol tag).1 p = some ((if ys.isEmpty then [] else c.bom) ++ unlinesB e ys)
+    ∧ loadLines c (saveFile c fs p (.lines xs) m eol tag).1 p rm eol = .ok ((markFirst c.bom ys).map Loaded.bytes) := by
+  rw [files2_saveFile_lines_manual c fs p xs ys m eol tag e hm hpath hc heol, startContent_fresh hf]
+  have hdisk : (fs.write p ([] ++ (if ([] : Bytes).isEmpty && !ys.isEmpty then c.bom else []) ++ unlinesB e ys)) p
+      = some (unlinesB e (markFirst c.bom ys)) := by
+    rw [files2_unlinesB_markFirst]; cases ys <;> simp [FS.write]
+  refine ⟨rfl, ?_, ?_⟩
+  · dsimp only
+    rw [hdisk, files2_unlinesB_markFirst]
+  · dsimp only
+    rw [files2_loadLines_split c _ p rm eol _ e hrm heol hne hdisk, files2_split_unlines e hne _ hok,
+      files2_dropLastEmpty_snoc]
+
+/-- **C15 (lines, binary round trip).**  A list of `bytes` lines saved with `wb` (any of the modes on
+the manual path) and a standard or custom EOL, loaded with `load_lines(…, 'b', encoding, EOL)`:
+exactly the lines come back, for every codec without signature (utf-8, latin-1, cp1252). -/
+theorem C15_lines_roundtrip_binary (c : Codec) (fs : FS) (p : Str) (ls : List Bytes) (m eol tag rm : Str) (e : Bytes)
+    (hm : SaveMode m) (hpath : textLayer m eol = false) (hf : Fresh fs p m) (hbom : c.bom = [])
+    (heol : c.enc eol = some e) (hne : e ≠ []) (hok : ∀ l ∈ ls, lineOk e l = true)
+    (hrm : (rm.contains 'b' || !isStdEol eol) = true) :
+    (saveFile c fs p (.lines (ls.map Line.bytes)) m eol tag).2 = .ok ()
+    ∧ (saveFile c fs p (.lines (ls.map Line.bytes)) m eol tag).1 p = some (unlinesB e ls)
+    ∧ loadLines c (saveFile c fs p (.lines (ls.map Line.bytes)) m eol tag).1 p rm eol = .ok (ls.map Loaded.bytes) := by
+  have hmf : markFirst c.bom ls = ls := by rw [hbom]; cases ls <;> rfl
+  have h := C15_lines_roundtrip_binary_gen c fs p _ ls m eol tag rm e hm hpath hf (files2_linesConv_bytes c ls) heol hne
+    (by rw [hmf]; exact hok) hrm
+  rw [hmf, hbom] at h
+  refine ⟨h.1, ?_, h.2.2⟩
+  rw [h.2.1]; cases ls <;> rfl
+
+/-- **C15 (lines, binary round trip: the condition is exact).**  Under the hypotheses of
+`C15_lines_roundtrip_binary`, `load_lines` returns the lines **iff** every line satisfies `lineOk`. -/
+theorem C15_lines_roundtrip_binary_iff (c : Codec) (fs : FS) (p : Str) (ls : List Bytes) (m eol tag rm : Str) (e : Bytes)
+    (hm : SaveMode m) (hpath : textLayer m eol = false) (hf : Fresh fs p m) (hbom : c.bom = [])
+    (heol : c.enc eol = some e) (hne : e ≠ []) (hrm : (rm.contains 'b' || !isStdEol eol) = true) :
+    loadLines c (saveFile c fs p (.lines (ls.map Line.bytes)) m eol tag).1 p rm eol = .ok (ls.map Loaded.bytes)
+      ↔ ∀ l ∈ ls, lineOk e l = true := by
+  constructor
+  · intro h
+    have hdisk : (saveFile c fs p (.lines (ls.map Line.bytes)) m eol tag).1 p = some (unlinesB e ls) := by
+      rw [files2_saveFile_lines_manual c fs p _ ls m eol tag e hm hpath (files2_linesConv_bytes c ls) heol,
+        startContent_fresh hf, hbom]
+      simp [FS.write]
+    rw [files2_loadLines_split c _ p rm eol _ e hrm heol hne hdisk] at h
+    have h' := congrArg (List.map (fun v => match v with | Loaded.bytes b => b | Loaded.str x => x)) (Except.ok.inj h)
+    simp only [List.map_map] at h'
+    have hid : ∀ xs : List Bytes, List.map ((fun v => match v with | Loaded.bytes b => b | Loaded.str x => x) ∘ Loaded.bytes) xs = xs := by
+      intro xs; induction xs with
+      | nil => rfl
+      | cons x xs ih => simp only [List.map_cons, Function.comp, ih]
+    rw [hid, hid] at h'
+    exact (files2_dropLastEmpty_split_iff e hne ls).mp h'
+  · intro hok
+    exact (C15_lines_roundtrip_binary c fs p ls m eol tag rm e hm hpath hf hbom heol hne hok hrm).2.2
+
+/-- **C15 (lines, binary round trip, standard EOL).**  LF, CRLF, CR under an ASCII-compatible codec
+without signature: it is enough that no line contains the first byte of the EOL (`'\n'` for LF,
+`'\r'` for CR and CRLF). -/
+theorem C15_lines_roundtrip_binary_std (c : Codec) (g : c.Good) (fs : FS) (p : Str) (ls : List Bytes) (m eol tag rm : Str)
+    (hm : m = ['b'] ∨ m = ['w', 'b']) (hf : Fresh fs p m) (hbom : c.bom = []) (hstd : isStdEol eol = true)
+    (hok : ∀ l ∈ ls, ∀ x ∈ eol.head?, x ∉ l) (hrm : rm.contains 'b' = true) :
+    loadLines c (saveFile c fs p (.lines (ls.map Line.bytes)) m eol tag).1 p rm eol = .ok (ls.map Loaded.bytes) := by
+  have heol := g.enc_ascii eol (std_ascii eol hstd)
+  have hm' : SaveMode m := by rcases hm with rfl | rfl <;> simp [SaveMode]
+  have hpath : textLayer m eol = false := by rcases hm with rfl | rfl <;> simp [textLayer]
+  have hne : eol ≠ [] := (eolDisjoint_std eol [] hstd (by simp [NoCR])).1
+  refine (C15_lines_roundtrip_binary c fs p ls m eol tag rm eol hm' hpath hf hbom heol hne ?_ (by rw [hrm]; rfl)).2.2
+  intro l hl
+  cases eol with
+  | nil => exact absurd rfl hne
+  | cons e0 es => exact files2_lineOk_of_head e0 es l (hok l hl e0 (by simp))
+
+/-- **C15 (lines of `str`, binary round trip).**  A list of `str` saved in binary mode comes back as the
+encoded lines. -/
+theorem C15_lines_roundtrip_binary_str (c : Codec) (fs : FS) (p : Str) (ls : List Str) (f : Str → Bytes)
+    (m eol tag rm : Str) (e : Bytes) (hm : SaveMode m) (hpath : textLayer m eol = false) (hf : Fresh fs p m)
+    (henc : ∀ l ∈ ls, c.enc l = some (f l)) (heol : c.enc eol = some e) (hne : e ≠ [])
+    (hok : ∀ l ∈ markFirst c.bom (ls.map f), lineOk e l = true)
+    (hrm : (rm.contains 'b' || !isStdEol eol) = true) :
+    loadLines c (saveFile c fs p (.lines (ls.map Line.str)) m eol tag).1 p rm eol
+      = .ok ((markFirst c.bom (ls.map f)).map Loaded.bytes) :=
+  (C15_lines_roundtrip_binary_gen c fs p _ _ m eol tag rm e hm hpath hf (files2_linesConv_str c ls f henc) heol hne hok hrm).2.2
+
+/-- the condition on a line, as a statement about positions: no occurrence of the EOL in
+line + EOL starts inside the line -/
+theorem C15_lineOk_iff (e l : Bytes) :
+    lineOk e l = true ↔ ∀ k, k < l.length → ¬ e <+: (l ++ e).drop k := files2_lineOk_iff e l
+
+/-- for a self-synchronising codec the condition on the encoded line follows from the same
+condition on the characters: an encoded EOL never starts in the middle of a character -/
+theorem C15_lineOk_encoded (c : Codec) (g : c.Good) (lead : Char → Bool) (sy : c.Sync lead) (eol l : Str) (ye yl : Bytes)
+    (he : c.enc eol = some ye) (hl : c.enc l = some yl) (h : lineOk eol l = true) : lineOk ye yl = true :=
+  files2_lineOk_enc g sy eol ye he l yl hl h
+
+/-- **the condition is needed (1)**: a line that contains the EOL is cut there -/
+theorem C15_lines_binary_contains_cex :
+    loadLines utf8 (saveFile utf8 (fun _ => none) ['f'] (.lines [.bytes ['a', '|', 'b']]) ['w', 'b'] ['|'] ['=']).1
+      ['f'] ['b'] ['|'] = .ok [.bytes ['a'], .bytes ['b']] := by decide
+
+/-- **the condition is needed (2)**: `'a|'` does not contain the EOL `'||'`, but its end and the
+beginning of the EOL spell it: `a|||` is split as `a`, `|` -/
+theorem C15_lines_binary_overlap_cex :
+    lineOk ['|', '|'] ['a', '|'] = false
+    ∧ loadLines utf8 (saveFile utf8 (fun _ => none) ['f'] (.lines [.bytes ['a', '|']]) ['w', 'b'] ['|', '|'] ['=']).1
+      ['f'] ['b'] ['|', '|'] = .ok [.bytes ['a'], .bytes ['|']] := by decide
+
+/-- … whereas a line ending with `'\r'` is fine under CRLF (`a\r\r\n` → `a\r`) -/
+theorem C15_lines_binary_cr_crlf :
+    lineOk ['\r', '\n'] ['a', '\r'] = true
+    ∧ loadLines utf8 (saveFile utf8 (fun _ => none) ['f'] (.lines [.bytes ['a', '\r']]) ['w', 'b'] ['\r', '\n'] ['=']).1
+      ['f'] ['b'] ['\r', '\n'] = .ok [.bytes ['a', '\r']] := by decide
+
+/-- **a signature codec**: the file starts with the signature, binary `load_lines` returns raw bytes,
+so the first line comes back behind it (`c.bom = []` is needed for "exactly the lines") -/
+theorem C15_lines_binary_bom_cex :
+    loadLines utf8sig (saveFile utf8sig (fun _ => none) ['f'] (.lines [.bytes ['a'], .bytes ['b']]) ['w', 'b'] ['\n'] ['=']).1
+      ['f'] ['b'] ['\n'] = .ok [.bytes (bomUtf8 ++ ['a']), .bytes ['b']] := by decide
+
+/-- an empty EOL: `save_file` writes the lines back to back, `split(b'')` raises `ValueError` -/
+theorem C15_lines_binary_empty_eol :
+    loadLines utf8 (saveFile utf8 (fun _ => none) ['f'] (.lines [.bytes ['a']]) ['w', 'b'] [] ['=']).1
+      ['f'] ['b'] [] = .error .ValueError := by decide
+
+/-- the former behaviour (before fix `C15-d`: `[a, b, b'']` and `[b'']`) on the repaired model: the
+terminator of the last line starts no further line, an empty file has no line, a last line without
+terminator and empty lines inside are kept -/
+theorem C15_lines_binary_trailing_fixed :
+    loadLines utf8 (FS.write (fun _ => none) ['f'] ['a', '\n', 'b', '\n']) ['f'] ['b'] ['\n'] = .ok [.bytes ['a'], .bytes ['b']]
+    ∧ loadLines utf8 (FS.write (fun _ => none) ['f'] []) ['f'] ['b'] ['\n'] = .ok []
+    ∧ loadLines utf8 (FS.write (fun _ => none) ['f'] ['a', '\n', 'b']) ['f'] ['b'] ['\n'] = .ok [.bytes ['a'], .bytes ['b']]
+    ∧ loadLines utf8 (FS.write (fun _ => none) ['f'] ['a', '\n', '\n']) ['f'] ['b'] ['\n'] = .ok [.bytes ['a'], .bytes []] := by
+  decide
+
+/-! ## custom EOLs with non-ASCII characters
+
+`save_file` writes the EOL in the file's encoding; since fix `C15-c` `load_file` / `load_lines` look for
+exactly those bytes.  The replacement is done on *bytes*; for a self-synchronising codec it coincides
+with the replacement on characters — an encoded EOL occurs in encoded text only as the encoding of an
+occurrence of the EOL. -/
+
+/-- **the four codecs are self-synchronising** -/
+theorem C15_codecs_sync : utf8.Sync utf8Lead ∧ utf8sig.Sync utf8Lead ∧ latin1.Sync (fun _ => true) ∧ cp1252.Sync (fun _ => true) :=
+  ⟨utf8_sync, utf8sig_sync, latin1_sync, cp1252_sync⟩
+
+/-- **C15 (byte-level replace = character-level replace).**  `enc(s).replace(enc(old), enc(new))`
+is `enc(s.replace(old, new))` for a `Good`, self-synchronising codec: an occurrence of the encoded
+`old` never straddles a character boundary. -/
+theorem C15_replace_encoded (c : Codec) (g : c.Good) (lead : Char → Bool) (sy : c.Sync lead) (old new s : Str) (yo yn ys : Bytes)
+    (hne : old ≠ []) (ho : c.enc old = some yo) (hn : c.enc new = some yn) (hs : c.enc s = some ys) :
+    c.enc (replace old new s) = some (replace yo yn ys) :=
+  files2_replace_enc g sy old new yo yn hne ho hn s.length s ys (Nat.le_refl _) hs
+
+/-- **C15 (bytes on disk, any EOL).**  The file is the encoded text in which every `'\n'` byte is
+replaced by the encoded EOL (ASCII or not), behind the codec's signature. -/
+theorem C15_disk_bytes_eol (c : Codec) (g : c.Good) (lead : Char → Bool) (sy : c.Sync lead) (fs : FS)
+    (p text m eol tag : Str) (y0 e : Bytes) (hm : SaveMode m) (hf : Fresh fs p m)
+    (henc : c.enc text = some y0) (heol : c.enc eol = some e) :
+    (saveFile c fs p (.str text) m eol tag).2 = .ok ()
+    ∧ (saveFile c fs p (.str text) m eol tag).1 p = some (c.bom ++ replace lf e y0) := by
+  have hlf : c.enc lf = some lf := g.ascii '\n' (by decide)
+  have hr := C15_replace_encoded c g lead sy lf eol text lf e y0 (by simp [lf]) hlf heol henc
+  have h := C15_disk_bytes c fs p text m eol tag _ e hm hf hr heol
+  refine ⟨h.1, ?_⟩
+  rw [h.2.1, Codec.encode, hr]; rfl
+
+/-- **C15 (what `load_file` returns, custom EOL, ASCII or not).**  For a `Good`, self-synchronising
+codec, an encodable non-standard EOL whose first byte is not a byte of the codec's signature:
+`load_file` of the saved file returns `text.replace('\n', EOL).replace(EOL, '\n')` — the byte-level
+search finds exactly the character-level occurrences of the EOL. -/
+theorem C15_load_eol (c : Codec) (g : c.Good) (lead : Char → Bool) (sy : c.Sync lead) (fs : FS)
+    (p text m eol tag : Str) (y e : Bytes) (hm : SaveMode m) (hf : Fresh fs p m)
+    (hstd : isStdEol eol = false) (hne : eol ≠ []) (heol : c.enc eol = some e)
+    (hb : ∀ x ∈ c.bom, e.head? ≠ some x) (henc : c.enc (replace lf eol text) = some y) :
+    loadFile c (saveFile c fs p (.str text) m eol tag).1 p ['t'] eol
+      = .ok (.str (replace eol lf (replace lf eol text))) := by
+  have hdisk := (C15_disk_bytes c fs p text m eol tag y e hm hf henc heol).2.1
+  simp only [Codec.encode, henc, Option.map_some] at hdisk
+  exact files2_load_custom c g sy _ p _ eol y e hstd hne heol hb henc hdisk
+
+/-- **C15 (round trip ⇔ character-level condition)**: under the hypotheses of `C15_load_eol` the
+text loads back iff putting the EOL in and taking it out again, on *characters*, is the identity. -/
+theorem C15_roundtrip_eol_iff (c : Codec) (g : c.Good) (lead : Char → Bool) (sy : c.Sync lead) (fs : FS)
+    (p text m eol tag : Str) (y e : Bytes) (hm : SaveMode m) (hf : Fresh fs p m)
+    (hstd : isStdEol eol = false) (hne : eol ≠ []) (heol : c.enc eol = some e)
+    (hb : ∀ x ∈ c.bom, e.head? ≠ some x) (henc : c.enc (replace lf eol text) = some y) :
+    loadFile c (saveFile c fs p (.str text) m eol tag).1 p ['t'] eol = .ok (.str text)
+      ↔ replace eol lf (replace lf eol text) = text := by
+  rw [C15_load_eol c g lead sy fs p text m eol tag y e hm hf hstd hne heol hb henc]
+  constructor
+  · intro h; injection h with h; injection h
+  · intro h; rw [h]
+
+/-- **C15 (round trip, every EOL — ASCII or not).**  Text without `'\r'`, an encodable EOL none of
+whose characters other than `'\n'` occurs in the text and whose first byte is not a byte of the
+signature: `load_file` with the same EOL and encoding returns the text. -/
+theorem C15_roundtrip_eol (c : Codec) (g : c.Good) (lead : Char → Bool) (sy : c.Sync lead) (fs : FS)
+    (p text m eol tag : Str) (y e : Bytes) (hm : SaveMode m) (hf : Fresh fs p m)
+    (hd : EolDisjoint eol text) (hcr : NoCR text) (heol : c.enc eol = some e)
+    (hb : ∀ x ∈ c.bom, e.head? ≠ some x) (henc : c.enc (replace lf eol text) = some y) :
+    loadFile c (saveFile c fs p (.str text) m eol tag).1 p ['t'] eol = .ok (.str text) := by
+  by_cases hstd : isStdEol eol = true
+  · exact C15_roundtrip_std c g fs p text m eol tag y hm hf hstd hcr henc
+  · rw [C15_load_eol c g lead sy fs p text m eol tag y e hm hf (by simpa using hstd) hd.1 heol hb henc,
+      show lf = ['\n'] from rfl, replace_roundtrip eol text hd]
+
+/-- **C15 (round trip, utf-8, every EOL)**: no encodability hypothesis, no condition on bytes -/
+theorem C15_roundtrip_eol_utf8 (fs : FS) (p text m eol tag : Str)
+    (hm : SaveMode m) (hf : Fresh fs p m) (hd : EolDisjoint eol text) (hcr : NoCR text) :
+    loadFile utf8 (saveFile utf8 fs p (.str text) m eol tag).1 p ['t'] eol = .ok (.str text) :=
+  C15_roundtrip_eol utf8 utf8_good utf8Lead utf8_sync fs p text m eol tag _ _ hm hf hd hcr rfl
+    (by intro x hx; simp [utf8] at hx) rfl
+
+/-- **C15 (round trip, utf-8-sig, every EOL)**: the only extra condition is that the EOL does not
+begin with U+FEFF, the character whose encoding is the signature -/
+theorem C15_roundtrip_eol_utf8sig (fs : FS) (p text m eol tag : Str)
+    (hm : SaveMode m) (hf : Fresh fs p m) (hd : EolDisjoint eol text) (hcr : NoCR text)
+    (hb : eol.head? ≠ some (Char.ofNat 0xFEFF)) :
+    loadFile utf8sig (saveFile utf8sig fs p (.str text) m eol tag).1 p ['t'] eol = .ok (.str text) := by
+  by_cases hstd : isStdEol eol = true
+  · exact C15_roundtrip_std utf8sig utf8sig_good fs p text m eol tag _ hm hf hstd hcr rfl
+  · have hdisk := (C15_disk_bytes_utf8sig fs p text m eol tag hm hf).2.1
+    rw [files2_load_custom_utf8sig _ p _ eol (by simpa using hstd) hd.1 hb hdisk,
+      show lf = ['\n'] from rfl, replace_roundtrip eol text hd]
+
+/-- **C15 (round trip, latin-1, every encodable EOL)** -/
+theorem C15_roundtrip_eol_latin1 (fs : FS) (p text m eol tag : Str) (y e : Bytes)
+    (hm : SaveMode m) (hf : Fresh fs p m) (hd : EolDisjoint eol text) (hcr : NoCR text)
+    (heol : latin1.enc eol = some e) (henc : latin1.enc (replace lf eol text) = some y) :
+    loadFile latin1 (saveFile latin1 fs p (.str text) m eol tag).1 p ['t'] eol = .ok (.str text) :=
+  C15_roundtrip_eol latin1 latin1_good _ latin1_sync fs p text m eol tag y e hm hf hd hcr heol
+    (by intro x hx; simp [latin1] at hx) henc
+
+/-- **C15 (round trip, cp1252, every encodable EOL)** — e.g. `'€'`, `'§'` -/
+theorem C15_roundtrip_eol_cp1252 (fs : FS) (p text m eol tag : Str) (y e : Bytes)
+    (hm : SaveMode m) (hf : Fresh fs p m) (hd : EolDisjoint eol text) (hcr : NoCR text)
+    (heol : cp1252.enc eol = some e) (henc : cp1252.enc (replace lf eol text) = some y) :
+    loadFile cp1252 (saveFile cp1252 fs p (.str text) m eol tag).1 p ['t'] eol = .ok (.str text) :=
+  C15_roundtrip_eol cp1252 cp1252_good _ cp1252_sync fs p text m eol tag y e hm hf hd hcr heol
+    (by intro x hx; simp [cp1252, tableCodec] at hx) henc
+
+/-- **C15 (append round trip, every EOL — ASCII or not).**  A text saved, a second one appended with `at`,
+same encodable EOL: one stream on disk, and it loads back as the concatenation. -/
+theorem C15_append_roundtrip_eol (c : Codec) (g : c.Good) (lead : Char → Bool) (sy : c.Sync lead) (fs : FS)
+    (p s1 s2 m eol tag : Str) (y1 y2 e : Bytes) (hm : SaveMode m) (hf : Fresh fs p m)
+    (hd : EolDisjoint eol (s1 ++ s2)) (h1 : NoCR s1) (h2 : NoCR s2) (heol : c.enc eol = some e)
+    (hb : ∀ x ∈ c.bom, e.head? ≠ some x)
+    (e1 : c.enc (replace lf eol s1) = some y1) (e2 : c.enc (replace lf eol s2) = some y2) :
+    (saveFile c (saveFile c fs p (.str s1) m eol tag).1 p (.str s2) ['a', 't'] eol tag).1 p
+        = c.encode (replace lf eol (s1 ++ s2))
+    ∧ loadFile c (saveFile c (saveFile c fs p (.str s1) m eol tag).1 p (.str s2) ['a', 't'] eol tag).1 p ['t'] eol
+        = .ok (.str (s1 ++ s2)) := by
+  have hd1 := (C15_disk_bytes c fs p s1 m eol tag y1 e hm hf e1 heol).2.1
+  simp only [Codec.encode, e1, Option.map_some] at hd1
+  have e12 : c.enc (replace lf eol (s1 ++ s2)) = some (y1 ++ y2) := by
+    rw [show lf = ['\n'] from rfl, replace_lf_append]; exact g.enc_append_of e1 e2
+  have hdisk : (saveFile c (saveFile c fs p (.str s1) m eol tag).1 p (.str s2) ['a', 't'] eol tag).1 p
+      = some (c.bom ++ (y1 ++ y2)) := by
+    by_cases hemp : c.bom ++ y1 = []
+    · rw [saveFile_str c _ p s2 ['a', 't'] eol tag y2 e (by simp [SaveMode]) e2 heol]
+      have hs : startContent (saveFile c fs p (.str s1) m eol tag).1 p ['a', 't'] = [] := by
+        simp [startContent, hd1, hemp]
+      have hb' : c.bom = [] := (List.append_eq_nil_iff.mp hemp).1
+      have hy : y1 = [] := (List.append_eq_nil_iff.mp hemp).2
+      simp [FS.write, mark, hs, hb', hy]
+    · rw [(C15_append c _ p (c.bom ++ y1) s2 eol tag y2 e hd1 hemp heol e2).2.1]
+      simp
+  refine ⟨by simp [hdisk, Codec.encode, e12], ?_⟩
+  have hcr : NoCR (s1 ++ s2) := by
+    unfold NoCR at *; simp only [List.mem_append, not_or]; exact ⟨h1, h2⟩
+  by_cases hstd : isStdEol eol = true
+  · exact filesLoad_encoded c g _ p (s1 ++ s2) eol (y1 ++ y2) (std_ascii eol hstd) hd hcr e12 hdisk
+  · rw [files2_load_custom c g sy _ p _ eol (y1 ++ y2) e (by simpa using hstd) hd.1 heol hb e12 hdisk,
+      show lf = ['\n'] from rfl, replace_roundtrip eol _ hd]
+
+/-- **an EOL the encoding cannot represent**: `save_file` raises (`UnicodeEncodeError`, a `ValueError`)
+before the file is opened — even for a bytes payload — and, since fix `C15-c`, so do `load_file` and
+`load_lines` -/
+theorem C15_eol_unencodable (c : Codec) (fs : FS) (p text m eol tag rm : Str) (y : Bytes) (hm : SaveMode m)
+    (hstd : isStdEol eol = false) (henc : c.enc (replace lf eol text) = some y) (heol : c.enc eol = none) :
+    saveFile c fs p (.str text) m eol tag = (fs, .error .ValueError)
+    ∧ loadLines c fs p rm eol = .error .ValueError := by
+  constructor
+  · have hb : ∀ mode2 mode3, setB mode2 = .ok mode3 →
+        saveBinary c fs p (.s text) mode2 eol = (fs, .error .ValueError) := by
+      intro mode2 mode3 hs
+      simp [saveBinary, hs, henc, Buf.isBytes, heol]
+    rcases hm with rfl | rfl | rfl | rfl | rfl
+    · have hn : normMode ['t'] false = .ok ['w', 't'] := by decide
+      simp only [saveFile, Payload.isBytes, hn, toBuf, hstd, Bool.not_false, Bool.or_true, if_true]
+      exact hb _ ['w', 'b'] (by decide)
+    · have hn : normMode ['b'] false = .ok ['w', 'b'] := by decide
+      simp only [saveFile, Payload.isBytes, hn, toBuf, hstd, Bool.not_false, Bool.or_true, if_true]
+      exact hb _ ['w', 'b'] (by decide)
+    · have hn : normMode ['w', 't'] false = .ok ['w', 't'] := by decide
+      simp only [saveFile, Payload.isBytes, hn, toBuf, hstd, Bool.not_false, Bool.or_true, if_true]
+      exact hb _ ['w', 'b'] (by decide)
+    · have hn : normMode ['w', 'b'] false = .ok ['w', 'b'] := by decide
+      simp only [saveFile, Payload.isBytes, hn, toBuf, hstd, Bool.not_false, Bool.or_true, if_true]
+      exact hb _ ['w', 'b'] (by decide)
+    · have hn : normMode ['a', 't'] false = .ok ['a', 't'] := by decide
+      simp only [saveFile, Payload.isBytes, hn, toBuf, hstd, Bool.not_false, Bool.or_true, if_true]
+      exact hb _ ['a', 'b'] (by decide)
+  · simp [loadLines, hstd, heol]
+
+/-- `'→'` has no cp1252 / latin-1 form: `load_file` raises as well -/
+theorem C15_eol_unencodable_load :
+    cp1252.enc ['→'] = none ∧ latin1.enc ['→'] = none
+    ∧ loadFile cp1252 (FS.write (fun _ => none) ['f'] ['a']) ['f'] ['t'] ['→'] = .error .ValueError
+    ∧ loadFile latin1 (FS.write (fun _ => none) ['f'] ['a']) ['f'] ['t'] ['→'] = .error .ValueError := by
+  decide +kernel
+
+/-- **the character-level condition is needed**: EOL `'§§'`, text `'§\n'` — the EOL's character occurs
+in the text; `§§§` is read back as `'\n§'` (first match wins), in every encoding -/
+theorem C15_eol_overlap_cex :
+    loadFile utf8 (saveFile utf8 (fun _ => none) ['f'] (.str ['§', '\n']) ['w', 't'] ['§', '§'] ['=']).1 ['f'] ['t'] ['§', '§']
+      = .ok (.str ['\n', '§'])
+    ∧ loadFile latin1 (saveFile latin1 (fun _ => none) ['f'] (.str ['§', '\n']) ['w', 't'] ['§', '§'] ['=']).1 ['f'] ['t'] ['§', '§']
+      = .ok (.str ['\n', '§']) := by decide
+
+/-- **the condition on the signature is needed**: with utf-8-sig and the EOL U+FEFF the signature itself
+is an occurrence of the encoded EOL: `'a\n'` is stored as `BOM a BOM` and read back as `'\na\n'` -/
+theorem C15_eol_bom_cex :
+    (saveFile utf8sig (fun _ => none) ['f'] (.str ['a', '\n']) ['w', 't'] [Char.ofNat 0xFEFF] ['=']).1 ['f']
+      = some (bomUtf8 ++ ['a'] ++ bomUtf8)
+    ∧ loadFile utf8sig (saveFile utf8sig (fun _ => none) ['f'] (.str ['a', '\n']) ['w', 't'] [Char.ofNat 0xFEFF] ['=']).1
+        ['f'] ['t'] [Char.ofNat 0xFEFF] = .ok (.str ['\n', 'a', '\n']) := by decide
+
+/-- the former witness of finding C15-c, after the fix: `save_file(p, 'a\nb\n', EOL='§', encoding='latin-1')`
+stores `a A7 b A7`; `load_file` returns the text (was `'a§b§'`: the loader looked for `C2 A7`), binary
+`load_lines` the two lines (was one line, the whole file); the same for cp1252 and `'€'` (byte `80`) -/
+theorem C15_eol_latin1_witness_fixed :
+    (saveFile latin1 (fun _ => none) ['f'] (.str ['a', '\n', 'b', '\n']) ['w', 't'] ['§'] ['=']).1 ['f']
+      = some ['a', Char.ofNat 0xA7, 'b', Char.ofNat 0xA7]
+    ∧ loadFile latin1 (saveFile latin1 (fun _ => none) ['f'] (.str ['a', '\n', 'b', '\n']) ['w', 't'] ['§'] ['=']).1
+        ['f'] ['t'] ['§'] = .ok (.str ['a', '\n', 'b', '\n'])
+    ∧ loadLines latin1 (saveFile latin1 (fun _ => none) ['f'] (.str ['a', '\n', 'b', '\n']) ['w', 't'] ['§'] ['=']).1
+        ['f'] ['b'] ['§'] = .ok [.bytes ['a'], .bytes ['b']]
+    ∧ loadFile cp1252 (saveFile cp1252 (fun _ => none) ['f'] (.str ['a', '\n']) ['w', 't'] ['€'] ['=']).1
+        ['f'] ['t'] ['€'] = .ok (.str ['a', '\n']) := by decide +kernel
+
 /-! ### Non-vacuity: concrete inhabitants of the hypotheses, exercising every path -/
 
 example : latin1.Good := latin1_good
@@ -397,5 +759,30 @@ example : (saveFile utf8sig (fun _ => none) ['f'] (.lines [.str ['a'], .bytes ['
     = some (bomUtf8 ++ ['a', ';', 'b', ';', '7', ';']) := by decide
 example : (saveFile utf8sig (FS.write (fun _ => none) ['f'] ['x']) ['f'] (.lines [.str ['a']]) ['a', 't'] [';'] ['=']).1 ['f']
     = some ['x', 'a', ';'] := by decide
+
+-- binary load_lines: lineOk inhabitants (LF, a multi-byte EOL, a line ending with a prefix of CRLF)
+example : lineOk ['\n'] ['a', 'b'] = true ∧ lineOk ['<', '>'] ['a', '<', 'b', '>'] = true
+    ∧ lineOk ['\r', '\n'] ['\n', '\r'] = true := by decide
+example : LinesConv utf8 [.bytes ['a'], .str ['é'], .other ['7']] [['a'], [Char.ofNat 0xC3, Char.ofNat 0xA9], ['7']] := by
+  simp only [LinesConv, convLine]; decide
+example : loadLines latin1 (saveFile latin1 (fun _ => none) ['f'] (.lines [.bytes ['a'], .bytes [], .bytes ['b', '\n']])
+    ['w', 'b'] ['\r', '\n'] ['=']).1 ['f'] ['b'] ['\r', '\n'] = .ok [.bytes ['a'], .bytes [], .bytes ['b', '\n']] := by decide
+example : loadLines utf8 (saveFile utf8 (fun _ => none) ['f'] (.lines [.str ['é'], .str ['a']])
+    ['a', 't'] ['§', '\n'] ['=']).1 ['f'] ['t'] ['§', '\n']
+    = .ok [.bytes [Char.ofNat 0xC3, Char.ofNat 0xA9], .bytes ['a']] := by decide
+-- non-ASCII EOLs: 2- and 3-byte utf-8 EOL sharing bytes with the text ('©' = C2 A9 next to '§' = C2 A7; '→\n')
+example : EolDisjoint ['§'] ['©', '\n', 'é'] ∧ EolDisjoint ['→', '\n'] ['a', '\n', '\n'] := by
+  unfold EolDisjoint; decide
+example : loadFile utf8 (saveFile utf8 (fun _ => none) ['f'] (.str ['©', '\n', 'é']) ['w', 't'] ['§'] ['=']).1
+    ['f'] ['t'] ['§'] = .ok (.str ['©', '\n', 'é']) := by decide
+example : loadFile utf8sig (saveFile utf8sig (fun _ => none) ['f'] (.str ['a', '\n', '\n']) ['t'] ['→', '\n'] ['=']).1
+    ['f'] ['t'] ['→', '\n'] = .ok (.str ['a', '\n', '\n']) := by decide
+example : cp1252.enc ['€', '§'] = some [Char.ofNat 0x80, Char.ofNat 0xA7] := by decide +kernel
+-- append with a non-ASCII EOL (cp1252 '€' = byte 80); the hypotheses on the signature for utf-8-sig
+example : loadFile cp1252 (saveFile cp1252 (saveFile cp1252 (fun _ => none) ['f'] (.str ['a', '\n']) ['w', 't'] ['€'] ['=']).1
+    ['f'] (.str ['é', '\n']) ['a', 't'] ['€'] ['=']).1 ['f'] ['t'] ['€'] = .ok (.str ['a', '\n', 'é', '\n']) := by decide +kernel
+example : ∀ x ∈ utf8sig.bom, (utf8Enc ['§']).head? ≠ some x := by decide
+example : (['→', '\n'] : Str).head? ≠ some (Char.ofNat 0xFEFF) := by decide
+example : utf8sig.Sync utf8Lead ∧ cp1252.Sync (fun _ => true) := ⟨utf8sig_sync, cp1252_sync⟩
 
 end N0.C15
